@@ -32,7 +32,7 @@ def num(v, maxden):
 def call(pts, ts):
     import tk
     from tracklib.algo.cinematics import computeAbsCurv
-    e = {"ev": "kin", "pts": [list(p) for p in pts], "ts": list(ts), "raised": False, "abs": [], "abs2": [], "speed": [], "speed2": [],
+    e = {"ev": "kin", "pts": [list(p) for p in pts], "ts": list(ts), "raised": False, "abs": [], "abs2": [], "abs3": [], "speed": [], "speed2": [],
          "pre": [], "post": []}
     tr = tk.mk_track([p[0] for p in pts], [p[1] for p in pts], [float(k) for k in range(len(pts))], ts)
 
@@ -49,6 +49,14 @@ def call(pts, ts):
             s2 = list(tr.estimate_speed())
             a3 = [tr["abs_curv", k] for k in range(tr.size())]
             s3 = [tr["speed", k] for k in range(tr.size())]
+        # history variant: the increments of the abscissa are left in a feature named 'ds' (Operator.DIFFERENTIATOR, as
+        # mapOn() does on its reference track), abs_curv is removed and computed again
+        from tracklib.core.operators import Operator
+        with core.quiet():
+            tr.operate(Operator.DIFFERENTIATOR, "abs_curv", "ds")
+            tr.removeAnalyticalFeature("abs_curv")
+            a4 = list(computeAbsCurv(tr))
+        e["abs3"] = [num(v, 1) for v in a4]
         e["abs"] = [num(v, 1) for v in a1]
         e["abs2"] = [num(v, 1) for v in a2]
         e["speed"] = [num(v * v if not (isinstance(v, float) and math.isnan(v)) else v, maxdt2) for v in s1]
